@@ -194,12 +194,12 @@ CORE_OFF = ["noroottypename", "nodupkey", "nodirid", "nofragdirs"]
 DEFECT_TAGS = {"root-typename": "roottypename", "dupkey": "dupkey", "dir-on-id": "dirid", "frag-dir": "fragdirs", "abstract": "abstract"}
 STRATA = {
     # name: (features, share of the budget)
-    "core": (CORE_OFF + ["oddids", "biglists"], 0.5),
+    "core": (CORE_OFF + ["oddids", "biglists", "richargs"], 0.5),
     "roottypename": ([f for f in CORE_OFF if f != "noroottypename"], 0.06),
     "dupkey": ([f for f in CORE_OFF if f != "nodupkey"], 0.08),
     "dirid": ([f for f in CORE_OFF if f != "nodirid"], 0.08),
     "fragdirs": ([f for f in CORE_OFF if f != "nofragdirs"], 0.08),
-    "abstract": (CORE_OFF + ["abstract"], 0.2),
+    "abstract": (CORE_OFF + ["abstract", "richargs"], 0.2),
 }
 
 
